@@ -161,6 +161,10 @@ func c45Count(nodes []*c45Node) int {
 	return k
 }
 
+// c45Pool: non-empty node lists generated so far in this tree; a directory may reuse one, so that
+// several directories (at any depth) reference the same subtree ID.
+var c45Pool [][]*c45Node
+
 func c45Gen(rng *vrng, depth, maxNames, nblobs int) []*c45Node {
 	var out []*c45Node
 	for name := 0; name < maxNames; name++ {
@@ -184,7 +188,14 @@ func c45Gen(rng *vrng, depth, maxNames, nblobs int) []*c45Node {
 		case r < 30 && depth > 0:
 			n.ty = 1
 			n.mode |= os.ModeDir
-			n.sub = c45Gen(rng, depth-1, maxNames, nblobs)
+			if len(c45Pool) > 0 && rng.chance(35) {
+				n.sub = c45Pool[rng.intn(len(c45Pool))] // shared subtree: same tree ID
+			} else {
+				n.sub = c45Gen(rng, depth-1, maxNames, nblobs)
+				if len(n.sub) > 0 {
+					c45Pool = append(c45Pool, n.sub)
+				}
+			}
 		case r < 70:
 			n.ty = 0
 			nc := rng.intn(5)
@@ -418,6 +429,13 @@ func c45Real(c *vctx, emitCase func(kind string, bitems []string, blobs map[uint
 			cases = append(cases, &c45RealCase{kind: []string{"real-tar", "real-zip"}[format], nodes: top, format: format})
 		}
 	}
+	for format := 0; format <= 1; format++ {
+		shared := []*c45Node{file(0, 1, 2, 1), file(1, 3), {name: 2, ty: 1, mode: os.ModeDir | 0o755, sub: []*c45Node{file(0, 4)}}}
+		dir := func(name int, sub []*c45Node) *c45Node { return &c45Node{name: name, ty: 1, mode: os.ModeDir | 0o755, sub: sub} }
+		top := []*c45Node{dir(0, shared), dir(1, []*c45Node{dir(0, shared), file(1, 5)}), file(2, 6), dir(3, shared)}
+		cases = append(cases, &c45RealCase{kind: []string{"real-tar-shared-subtree", "real-zip-shared-subtree"}[format], nodes: top, format: format})
+		cases = append(cases, &c45RealCase{kind: []string{"real-tar-shared-subtree", "real-zip-shared-subtree"}[format], nodes: []*c45Node{dir(0, top), file(1, 7)}, format: format})
+	}
 	old := c45IDOf
 	defer func() { c45IDOf = old }()
 	_, _, err := e.run(func(ctx context.Context, gopts global.Options) error {
@@ -532,6 +550,22 @@ func engineC45(c *vctx) error {
 		emit("corpus-empty", r0, cb, 0, nil, nil, format)
 		emit("corpus-missing-blob", r0, cb, 2, corpus, nil, format)
 	}
+	{
+		shared := []*c45Node{
+			{name: 1, ty: 0, mode: 0o644, content: []uint64{1, 2}},
+			{name: 2, ty: 2, mode: os.ModeSymlink | 0o777, link: "t"},
+			{name: 3, ty: 1, mode: os.ModeDir | 0o700, sub: []*c45Node{{name: 1, ty: 0, mode: 0o600, content: []uint64{4}}}},
+		}
+		dir := func(name int, sub []*c45Node) *c45Node { return &c45Node{name: name, ty: 1, mode: os.ModeDir | 0o755, sub: sub} }
+		tree := []*c45Node{dir(1, shared), dir(2, []*c45Node{dir(1, shared), {name: 2, ty: 0, mode: 0o644, content: []uint64{3}}}), dir(3, shared), dir(4, nil), dir(5, nil)}
+		for format := 0; format <= 1; format++ {
+			emit("corpus-shared-subtree", r0, cb, 0, tree, nil, format)
+			emit("corpus-shared-subtree", r0, cb, 0, tree[1:], []int{9}, format)
+			// all references below ONE directory of the dumped tree (one sendNodes call)
+			emit("corpus-shared-subtree", r0, cb, 0, []*c45Node{dir(7, tree)}, nil, format)
+			emit("corpus-shared-subtree", r0, cb, 0, []*c45Node{{name: 0, ty: 0, mode: 0o644}, dir(7, tree[:3]), dir(8, tree[:3])}, []int{2}, format)
+		}
+	}
 	emit("corpus-file", r0, cb, 0, corpus[0].sub[:1], nil, 2)
 	emit("corpus-file", r0, cb, 0, corpus[2:3], nil, 2)
 	emit("corpus-file-missing-blob", r0, cb, 4, corpus[0].sub[:1], nil, 2)
@@ -564,6 +598,7 @@ func engineC45(c *vctx) error {
 			emit(kind, rng, blobs, missing, []*c45Node{n}, nil, 2)
 		default:
 			depth := rng.intn(4)
+			c45Pool = nil
 			nodes := c45Gen(rng, depth, 2+rng.intn(4), nb)
 			if c45Count(nodes) > 40 {
 				continue
